@@ -74,6 +74,7 @@ func genWorkload(t *rapid.T) *workload {
 	s.IntervalUs = 300
 	s.WatchdogMs = 10000
 	s.OpMarks = true
+	s.Pad = 48
 	seed := rapid.Uint64().Draw(t, "seed")
 	for i := 0; i < nObjects; i++ {
 		o := fsobj.Spec{Idx: i, Seed: seed, Cnr: i % 2}
